@@ -12,6 +12,7 @@ import ast
 from .astutil import dotted, calls_in, last_attr, receiver, norm, is_name, is_self_attr, walk_local
 
 NONE, PAIR, MSG, WIRE, OTHER = 'none', 'pair', 'msg', 'wire', 'other'
+SENT = 'sentinel'      # a module-level `X = object()` marker: never stored in an outcome slot once a test has excluded it
 
 
 def key_of(expr):
@@ -52,6 +53,8 @@ class ShapeFlow:
         if k is not None:
             if k in env:
                 return set(env[k])
+            if isinstance(expr, ast.Name) and expr.id in self._sentinels():
+                return {SENT}
             if k.startswith('self.') and depth < 2:
                 return self.attr_shapes(k[5:], depth)
             return {OTHER}
@@ -76,6 +79,19 @@ class ShapeFlow:
                 return {PAIR}
         return {OTHER}
 
+    def _sentinels(self):
+        cache = self.__dict__.get('_sent_cache')
+        if cache is None:
+            cache = set()
+            mod = getattr(self.g.func, 'module', None)
+            tree = getattr(mod, 'tree', None)
+            for st in (tree.body if tree is not None else []):
+                if isinstance(st, ast.Assign) and len(st.targets) == 1 and isinstance(st.targets[0], ast.Name) and isinstance(st.value, ast.Call) \
+                        and isinstance(st.value.func, ast.Name) and st.value.func.id == 'object' and not st.value.args:
+                    cache.add(st.targets[0].id)
+            self.__dict__['_sent_cache'] = cache
+        return cache
+
     def attr_shapes(self, attr, depth=0):
         """shapes of every value assigned to self.<attr> anywhere in the class hierarchy (flow-insensitive)"""
         cache = self.__dict__.setdefault('_attr_shapes', {})
@@ -94,11 +110,30 @@ class ShapeFlow:
                         v = st.value
                         if isinstance(v, ast.Name):
                             # a local (e.g. the result variable of an inlined helper): the shapes of everything assigned to it in that function
-                            defs = [x.value for x in walk_local(f.node) if isinstance(x, ast.Assign) and len(x.targets) == 1 and isinstance(x.targets[0], ast.Name)
-                                    and x.targets[0].id == v.id]
-                            if defs:
-                                for d in defs:
-                                    out |= self.shape(d, {}, depth + 1) if not isinstance(d, ast.Name) else {OTHER}
+                            def local_shapes(name, seen):
+                                res = set()
+                                ds = [x.value for x in walk_local(f.node) if isinstance(x, ast.Assign) and len(x.targets) == 1 and isinstance(x.targets[0], ast.Name)
+                                      and x.targets[0].id == name]
+                                if not ds:
+                                    return None
+                                for d in ds:
+                                    if isinstance(d, ast.Name) and d.id not in self._sentinels():
+                                        sub = local_shapes(d.id, seen | {name}) if d.id not in seen else None
+                                        res |= sub if sub is not None else {OTHER}
+                                    else:
+                                        res |= self.shape(d, {}, depth + 1)
+                                return res
+                            shp = local_shapes(v.id, set())
+                            if shp is not None:
+                                # a store that sits under `if <that local> is not <sentinel>` never stores the sentinel
+                                from .astutil import parent_map, guards_of, conjuncts
+                                pm = parent_map(f.node)
+                                facts = set()
+                                for gst, truth in guards_of(pm, st, f.node):
+                                    facts |= set(conjuncts(gst.test, truth))
+                                if any(txt.startswith(f'{v.id} is ') and txt.split(' is ')[1] in self._sentinels() and truth is False for txt, truth in facts):
+                                    shp = shp - {SENT}
+                                out |= shp
                                 continue
                         out |= self.shape(v, {}, depth + 1)
         res = out if found else {OTHER}
@@ -158,6 +193,17 @@ class ShapeFlow:
             env[k] = frozenset({NONE}) & env[k] if want_none else env[k] - {NONE}
             if not env[k]:
                 return None       # infeasible edge
+        # `x is <sentinel>` / `x is not <sentinel>`: the same refinement for a module-level marker object
+        if isinstance(t, ast.Compare) and len(t.ops) == 1 and isinstance(t.ops[0], (ast.Is, ast.IsNot)) and isinstance(t.comparators[0], ast.Name) \
+                and t.comparators[0].id in self._sentinels():
+            k = key_of(t.left)
+            if k is None or k not in env:
+                return env
+            want = (edge.kind == 'true') == (isinstance(t.ops[0], ast.Is) != neg)
+            env = dict(env)
+            env[k] = frozenset({SENT}) & env[k] if want else env[k] - {SENT}
+            if not env[k]:
+                return None
         return env
 
     # ---------------------------------------------------------------- solve
